@@ -116,13 +116,22 @@ func c12Schedules(rng *Rng, n int) [][]int {
 // ChunkedPut: PUT with STREAMING-AWS4-HMAC-SHA256-PAYLOAD framing, the payload cut into chunks of the
 // given sizes, the transport delivering it by the given read schedule
 func (s *Sess) ChunkedPut(b, key string, payload []byte, sizes []int, sched []int, eofWith bool, declared int) Resp {
+	return s.ChunkedPutMeta(b, key, payload, sizes, sched, eofWith, declared, nil)
+}
+
+// ChunkedPutMeta: the same, carrying metadata headers
+func (s *Sess) ChunkedPutMeta(b, key string, payload []byte, sizes []int, sched []int, eofWith bool, declared int, m []KV) Resp {
 	stream := encodeChunks(splitChunks(payload, sizes))
 	fr := &fragReader{data: append([]byte{}, stream...), sched: append([]int{}, sched...), eofWith: eofWith}
-	r := do(s.h, Req{Method: "PUT", Path: "/" + b + "/" + key, Reader: fr, Header: [][2]string{
+	hdr := [][2]string{
 		{"Content-Length", strconv.Itoa(len(stream))},
 		{"X-Amz-Content-Sha256", "STREAMING-AWS4-HMAC-SHA256-PAYLOAD"},
-		{"X-Amz-Decoded-Content-Length", strconv.Itoa(declared)}}})
-	s.emitOp("cput", []string{hs(b), hs(key), hx(stream), schedField(sched), boolField(eofWith), strconv.Itoa(declared), hx(payload)}, obsT{r: r})
+		{"X-Amz-Decoded-Content-Length", strconv.Itoa(declared)}}
+	for _, kv := range m {
+		hdr = append(hdr, [2]string{kv.K, kv.V})
+	}
+	r := do(s.h, Req{Method: "PUT", Path: "/" + pathEscape(b) + "/" + pathEscape(key), Reader: fr, Header: hdr})
+	s.emitOp("cput", []string{hs(b), hs(key), hx(stream), schedField(sched), boolField(eofWith), strconv.Itoa(declared), hx(payload), metaArg(m)}, obsT{r: r})
 	return r
 }
 
